@@ -75,6 +75,12 @@ def k7_calls(isa, t, tier, rng, half=None):
             m = rng.choice([1, 2, 3, 4, 5, 7, 8, 9, V + 1, 2 * V + 1])
             k = rng.choice([1, 2, 3, 4, 5, V, V + 1])
             calls.append("%s<%s,%d,%d,%d>();" % (f, t, m, k, n))
+    # N >= 5V: the blocked kernels (_matmul_base, and _matmul_base_masked when N % V > 1 on AVX2 / AVX-512 builds) - the small-N
+    # kernels take every N < 5V, so the extent sweep above never reaches them
+    if V > 1 and not isc:
+        for (m, k, n) in [(5, 2, 5 * V + 2), (9, 3, 5 * V + V - 1)] + ([(4, 1, 6 * V + 1), (13, 2, 7 * V + 3)] if full else []):
+            calls.append("g_matmul_raw<%s,%d,%d,%d>();" % (t, m, k, n))
+        calls.append("g_matmul_map<%s,%d,%d,%d>();" % (t, 6, 2, 5 * V + 3))
     if isf:     # the intrinsic M x K x M and 2x2, 3x3, 4x4 specialisations
         for (m, k, n) in [(2, 2, 2), (3, 3, 3), (4, 4, 4), (8, 8, 8), (3, 4, 3), (3, 3, 1), (8, 3, 8)] + ([(2, 3, 2), (4, 5, 4), (2, 2, 1), (4, 4, 1), (3, 5, 3)] if full else []):
             calls.append("g_matmul_raw<%s,%d,%d,%d>();" % (t, m, k, n))
